@@ -736,6 +736,12 @@ func (obj *SparseIntVectorJointIterator) Ok() bool {
          !(obj.s2 == nil || obj.s2.GetInt() == int(0))
 }
 func (obj *SparseIntVectorJointIterator) Next() {
+  // skip positions where all operands are zero; stop when all
+  // iterators are exhausted
+  for obj.next() && !obj.Ok() {
+  }
+}
+func (obj *SparseIntVectorJointIterator) next() bool {
   ok1 := obj.it1.Ok()
   ok2 := obj.it2.Ok()
   obj.s1.ptr = nil
@@ -762,6 +768,7 @@ func (obj *SparseIntVectorJointIterator) Next() {
   } else {
     obj.s2 = ConstInt(0.0)
   }
+  return ok1 || ok2
 }
 func (obj *SparseIntVectorJointIterator) Get() (Scalar, ConstScalar) {
   if obj.s1.ptr == nil {
@@ -815,6 +822,12 @@ func (obj *SparseIntVectorJoint3Iterator) Ok() bool {
          !(obj.s3 == nil || obj.s3.GetInt() == int(0))
 }
 func (obj *SparseIntVectorJoint3Iterator) Next() {
+  // skip positions where all operands are zero; stop when all
+  // iterators are exhausted
+  for obj.next() && !obj.Ok() {
+  }
+}
+func (obj *SparseIntVectorJoint3Iterator) next() bool {
   ok1 := obj.it1.Ok()
   ok2 := obj.it2.Ok()
   ok3 := obj.it3.Ok()
@@ -861,6 +874,7 @@ func (obj *SparseIntVectorJoint3Iterator) Next() {
   } else {
     obj.s3 = ConstInt(0.0)
   }
+  return ok1 || ok2 || ok3
 }
 func (obj *SparseIntVectorJoint3Iterator) Get() (Scalar, ConstScalar, ConstScalar) {
   if obj.s1.ptr == nil {
